@@ -1055,6 +1055,17 @@ class NF:
         from . import norm
         import copy as _copy
         stmts = real_body(m)
+        if _computed_spelling(m) and env.cls is not None:
+            try:
+                from .canon import Canon
+                cn = getattr(self.prog, "_canon", None)
+                if cn is None:
+                    cn = self.prog._canon = Canon(self.prog)
+                dk = next((k_ for k_ in env.cls.mro if isinstance(k_, Class) and m in k_.methods.values()), None)
+                if dk is not None:
+                    stmts = cn.body(m, dk.module, dk, subst=False)
+            except Exception:
+                stmts = real_body(m)
         if any(isinstance(t_, ast.Subscript) or isinstance(s_, ast.Expr) for s_ in stmts for t_ in (getattr(s_, "targets", None) or [None])):
             stmts = norm.merge_display_building([_copy.deepcopy(s_) for s_ in stmts])
         if any(isinstance(n, ast.For) for s_ in stmts for n in ast.walk(s_)):
@@ -1271,9 +1282,11 @@ class NF:
             imported = set(c.module.imports) | {a_.asname or a_.name for n in ast.walk(m) if isinstance(n, ast.ImportFrom) for a_ in n.names}
             unknown = [x for x in names if x.startswith("_") and not x.startswith("__") and (
                 (x in c.module.functions and f"fn:{x}" not in known) or (x in c.module.assigns and f"const:{x}" not in known)
+                or (x in c.module.classes and f"class:{x}" not in known)
                 or (x in imported and f"fn:{x}" not in known and f"const:{x}" not in known and f"class:{x}" not in known)
                 or (any(x in k.methods for k in c.mro) and not any(f"{k.name}.{x}" in known for k in c.mro)))]
-            if not unknown:
+            # (and spellings the evaluator does not read: arguments passed as **table, attributes named by a computed string)
+            if not unknown and not _computed_spelling(m):
                 return raw
             cn = getattr(self.prog, "_canon", None)
             if cn is None:
@@ -1404,6 +1417,14 @@ class NF:
 
 
 _RAISES = ("raises",)
+
+
+def _computed_spelling(m) -> bool:
+    """spellings the evaluator does not read: arguments passed as **table, attributes named by a computed string (the canonical
+    body writes both out)"""
+    return any(isinstance(n, ast.Call) and (any(k.arg is None and not isinstance(k.value, ast.Dict) for k in n.keywords)
+                                            or (isinstance(n.func, ast.Name) and n.func.id == "getattr" and len(n.args) >= 2
+                                                and not isinstance(n.args[1], ast.Constant))) for n in ast.walk(m))
 
 
 def _first_cond(t):
